@@ -62,7 +62,8 @@ RULE = ('stream 1: one `dist` op per (class, size, deformation): model distance 
         'certificate (including deliberately wrong certificates / overstated d)')
 
 # all-sizes distance theorems of the hand-modelled classes (built and axiom-audited with C17)
-ALLSIZES_CLASSES = ['Toric2DCode', 'Planar2DCode', 'RotatedPlanar2DCode', 'Toric3DCode', 'Planar3DCode']
+ALLSIZES_CLASSES = ['Toric2DCode', 'Planar2DCode', 'RotatedPlanar2DCode', 'Toric3DCode', 'Planar3DCode',
+                    'RotatedPlanar3DCode']
 PROPERTY_MODULES = ['PanqecVerif.Properties.C17'] + [f'PanqecVerif.Properties.C17{c}' for c in ALLSIZES_CLASSES]
 
 # instances of the regenerated tables for which no certificate is expected (see LEVEL_NOTE)
